@@ -305,21 +305,21 @@ func prop(c Case) error {
 	}
 	switch c.Fn {
 	case "dist3":
-		tol := 1e-9 * scaleOf(c, 3)
+		tol := 1e-12 * scaleOf(c, 3)
 		d2 := exact.Dist2_3(e3(P[0]), e3(P[1]))
 		if err := check("xyz.Distance(p,q)", xyz.Distance(c3(P[0]), c3(P[1])), d2, tol, true); err != nil {
 			return err
 		}
 		return check("xyz.Distance(q,p)", xyz.Distance(c3(P[1]), c3(P[0])), d2, tol, true)
 	case "pt-seg2":
-		tol := 1e-9 * scaleOf(c, 2)
+		tol := 1e-12 * scaleOf(c, 2)
 		d2 := exact.PointSegDist2(e2(P[0]), e2(P[1]), e2(P[2]))
 		if err := check("xy.DistanceFromPointToLine(p,a,b)", xy.DistanceFromPointToLine(cc(0), cc(1), cc(2)), d2, tol, true); err != nil {
 			return err
 		}
 		return check("xy.DistanceFromPointToLine(p,b,a)", xy.DistanceFromPointToLine(cc(0), cc(2), cc(1)), d2, tol, true)
 	case "perp2":
-		tol := 1e-9 * scaleOf(c, 2)
+		tol := 1e-12 * scaleOf(c, 2)
 		a, b, p := e2(P[1]), e2(P[2]), e2(P[0])
 		cr := exact.Cross(a, b, p)
 		d2 := exact.Quo(exact.Mul(cr, cr), exact.Dist2(a, b))
@@ -328,14 +328,14 @@ func prop(c Case) error {
 		}
 		return check("xy.PerpendicularDistanceFromPointToLine(p,b,a)", xy.PerpendicularDistanceFromPointToLine(cc(0), cc(2), cc(1)), d2, tol, true)
 	case "pt-seg3":
-		tol := 1e-9 * scaleOf(c, 3)
+		tol := 1e-12 * scaleOf(c, 3)
 		d2 := exact.PointSegDist2_3(e3(P[0]), e3(P[1]), e3(P[2]))
 		if err := check("xyz.DistancePointToLine(p,a,b)", xyz.DistancePointToLine(c3(P[0]), c3(P[1]), c3(P[2])), d2, tol, false); err != nil {
 			return err
 		}
 		return check("xyz.DistancePointToLine(p,b,a)", xyz.DistancePointToLine(c3(P[0]), c3(P[2]), c3(P[1])), d2, tol, false)
 	case "pt-ls2":
-		tol := 1e-9 * scaleOf(c, 2)
+		tol := 1e-12 * scaleOf(c, 2)
 		stride := c.Stride
 		layout := []geom.Layout{0, 0, geom.XY, geom.XYZ, geom.XYZM, geom.Layout(5)}[stride]
 		if stride == 3 && len(P)%2 == 0 {
@@ -377,9 +377,41 @@ func prop(c Case) error {
 				return err
 			}
 		}
+		// the distance is that of the vertices as they are now: the same slice is asked
+		// again, then its interior vertices are moved in place (x and y exchanged; the
+		// first and the last vertex stay), then all of them, and it is asked each time
+		for rep := 0; rep < 3; rep++ {
+			if err := check("xy.DistanceFromPointToLineString(the same slice again)", xy.DistanceFromPointToLineString(layout, cc(0), line), d2, tol, true); err != nil {
+				return err
+			}
+		}
+		Q := append([][3]int64{}, P...)
+		for pass, rng := range [][2]int{{2, len(P) - 2}, {1, len(P) - 1}} {
+			if pass == 1 {
+				Q = append([][3]int64{}, P...)
+			}
+			for i := rng[0]; i <= rng[1]; i++ {
+				k := (i - 1) * stride
+				if pass == 1 && i >= 2 && i <= len(P)-2 {
+					continue // already exchanged in the first pass; now only the ends join them
+				}
+				line[k], line[k+1] = line[k+1], line[k]
+			}
+			for i := rng[0]; i <= rng[1]; i++ {
+				Q[i][0], Q[i][1] = P[i][1], P[i][0]
+			}
+			dq := exact.Dist2(e2(Q[0]), e2(Q[1]))
+			for i := 2; i < len(Q); i++ {
+				dq = exact.MinRat(dq, exact.PointSegDist2(e2(Q[0]), e2(Q[i-1]), e2(Q[i])))
+			}
+			what := []string{"interior vertices", "all vertices"}[pass]
+			if err := check("xy.DistanceFromPointToLineString(the same slice after its "+what+" were moved in place)", xy.DistanceFromPointToLineString(layout, cc(0), line), dq, tol, true); err != nil {
+				return err
+			}
+		}
 		return nil
 	case "seg-seg2":
-		tol := 1e-9 * scaleOf(c, 2)
+		tol := 1e-12 * scaleOf(c, 2)
 		d2 := exact.SegSegDist2(e2(P[0]), e2(P[1]), e2(P[2]), e2(P[3]))
 		for vi, idx := range variants {
 			got := xy.DistanceFromLineToLine(cc(idx[0]), cc(idx[1]), cc(idx[2]), cc(idx[3]))
@@ -388,7 +420,7 @@ func prop(c Case) error {
 			}
 		}
 	case "seg-seg3":
-		tol := 1e-9 * scaleOf(c, 3)
+		tol := 1e-12 * scaleOf(c, 3)
 		d2 := exact.SegSegDist2_3(e3(P[0]), e3(P[1]), e3(P[2]), e3(P[3]))
 		for vi, idx := range variants {
 			got := xyz.DistanceLineToLine(c3(P[idx[0]]), c3(P[idx[1]]), c3(P[idx[2]]), c3(P[idx[3]]))
